@@ -16,7 +16,8 @@ RULE = ("(a) the row sequence of valid streams (pyjelly- and reference-producer-
         "(including 1 row per frame, everything in one frame, empty frames, frames carrying metadata), re-encoded with "
         "rv.wire; the flat parse of every re-partitioning must equal the flat parse of the original. (b) grouped parsing of "
         "the same bytes: number of sinks == number of frames, sink i holds exactly frame i's statements, concatenation == "
-        "flat parse, and the caller's ContextVar shows frame i's metadata when sink i is received. (c) sequences of 1-12 "
+        "flat parse, and the caller's ContextVar shows frame i's metadata when sink i is received, when the sink factory for frame i "
+        "is called, and at the top of a per-frame loop over parse_triples_stream / parse_quads_stream. (c) sequences of 1-12 "
         "graphs/datasets (some empty, some with more rows than the default frame size) written through ONE shared stream with each "
         "grouped logical type - requested through logical_type or through an explicit GraphsFrameFlow()/DatasetsFrameFlow() object - via "
         "grouped_stream_to_frames / _to_file of both integrations: frames carrying >= 1 statement row == non-empty inputs, "
@@ -119,7 +120,8 @@ def check_reframing(ctx, rng, vs, integs):
                 w = {"clause": "reframed-parse-differs", "summary": f"{integ}: flat parse changed with the frame cuts "
                                                                     f"({len(got)} vs {len(base[integ])} events)"}
                 break
-            w = check_grouped(ctx, integ, data, frames, ref, base[integ])
+            w = check_grouped(ctx, integ, data, frames, ref, base[integ]) or \
+                check_metadata_early(ctx, integ, data, frames, vs["physical"])
             if w:
                 break
         if w:
@@ -238,6 +240,65 @@ def check_interleaved(ctx, rng):
         ctx.violation(w)
     ctx.case(("interleaved", integ, gen.case_hash(datas[0]), gen.case_hash(datas[1])), all(len(x) >= 2 for x in solo_g),
              sample={"part": "interleaved-parsers", "integration": integ, "frames": [len(x) for x in solo_g]})
+
+
+def check_metadata_early(ctx, integ, data, frames, physical):
+    """Frame i's metadata is what the caller's ContextVar shows from the moment frame i is being consumed: when the
+    sink for it is built (a sink/graph/dataset factory that looks at the metadata, e.g. to name the graph) and at the
+    top of a per-frame loop over parse_triples_stream / parse_quads_stream, before any row is pulled."""
+    from pyjelly.integrations.generic import parse as gparse
+    from pyjelly.integrations.rdflib import parse as rparse
+    from pyjelly.parse.ioutils import get_options_and_frames
+
+    want = [dict(f.get("metadata") or []) for f in frames]
+    cv: ContextVar = ContextVar("rv_frame_metadata_early", default={"<unset>": b""})
+    seen: list = []
+    try:
+        if integ == "generic":
+            from pyjelly.integrations.generic.generic_sink import GenericStatementSink
+
+            def fac():
+                seen.append(dict(cv.get()))
+                return GenericStatementSink()
+            for _s in gparse.parse_jelly_grouped(io.BytesIO(data), sink_factory=fac, frame_metadata=cv):
+                pass
+        else:
+            import rdflib
+
+            def gfac():
+                seen.append(dict(cv.get()))
+                return rdflib.Graph(bind_namespaces="none")
+
+            def dfac():
+                seen.append(dict(cv.get()))
+                return rdflib.Dataset(default_union=False)
+            for _s in rparse.parse_jelly_grouped(io.BytesIO(data), graph_factory=gfac, dataset_factory=dfac, frame_metadata=cv):
+                pass
+    except Exception as e:  # noqa: BLE001
+        return {"clause": "grouped-parse-raised", "summary": f"{integ} (factory reading metadata): {type(e).__name__}: {e}"}
+    ctx.observe("metadata-seen-by-sink-factory-checks", len(seen))
+    if seen != want:
+        k = next((i for i, (a, b) in enumerate(zip(seen, want)) if a != b), min(len(seen), len(want)))
+        return {"clause": "metadata-at-sink-construction", "summary": f"{integ}: the factory building the sink for frame {k} saw "
+                                                                       f"{seen[k] if k < len(seen) else None!r}, frame {k} carries {want[k] if k < len(want) else None!r}"}
+    mod = gparse if integ == "generic" else rparse
+    inp = io.BytesIO(data)
+    tops: list = []
+    try:
+        options, fr_it = get_options_and_frames(inp)
+        fn = mod.parse_triples_stream if physical == 1 else mod.parse_quads_stream
+        for rows in fn(frames=fr_it, options=options, frame_metadata=cv):
+            tops.append(dict(cv.get()))
+            for _item in rows:
+                pass
+    except Exception as e:  # noqa: BLE001
+        return {"clause": "grouped-parse-raised", "summary": f"{integ} (per-frame loop): {type(e).__name__}: {e}"}
+    ctx.observe("metadata-at-top-of-frame-loop-checks", len(tops))
+    if tops != want:
+        k = next((i for i, (a, b) in enumerate(zip(tops, want)) if a != b), min(len(tops), len(want)))
+        return {"clause": "metadata-at-top-of-frame-loop", "summary": f"{integ}: at the top of the loop body for frame {k} the ContextVar "
+                                                                       f"showed {tops[k] if k < len(tops) else None!r}, frame {k} carries {want[k] if k < len(want) else None!r}"}
+    return None
 
 
 # ------------------------------------------------------------------ (c)
@@ -493,7 +554,8 @@ def replay(w: dict):
             return {"clause": "reframed-parse-raised", "summary": str(e)}
         if a != b:
             return {"clause": "reframed-parse-differs", "summary": "flat parse changed with the frame cuts"}
-        r = check_grouped(_C(), integ, data, frames, ref, a)
+        r = check_grouped(_C(), integ, data, frames, ref, a) or \
+            check_metadata_early(_C(), integ, data, frames, ref.options["physical_type"])
         if r:
             return r
     return None
